@@ -8,7 +8,7 @@ import libif
 
 RULE = ("(a) exhaustive: every binary matrix of every shape m x n with m, n >= 1 and m*n <= 12 (35 978 matrices); "
         "(b) Hypothesis: shapes up to 40 x 28 drawn from seven distributions (uniform, low-rank product, full column "
-        "rank, sparse, layer-search shapes, duplicate+zero rows, pivots in the last columns), dtypes int8/int32/int64/uint8/bool and memory layouts (C, Fortran, strided view, transposed view, read-only). A case is one matrix; non-trivial = rank-deficient with "
+        "rank, sparse, layer-search shapes, duplicate+zero rows, pivots in the last columns, wide matrices up to 96 columns made of long runs of ones / very dense), dtypes int8/int32/int64/uint8/bool and memory layouts (C, Fortran, strided view, transposed view, read-only). A case is one matrix; non-trivial = rank-deficient with "
         ">= 2 free columns, or full column rank (trivial kernel); distinct by (shape, rows). Oracle: own bitmask "
         "elimination, plus brute-force span / kernel enumeration when <= 12 rows / columns. A share of the cases is preceded by calls "
         "on related matrices (same entries reshaped, transposed, other dtype, one bit flipped): answers must not depend on history.")
@@ -276,7 +276,8 @@ def strategy():
 
     @st.composite
     def mats(draw):
-        kind = draw(st.sampled_from(["uniform", "lowrank", "fullcol", "sparse", "stabilizer-like", "duplicates+zero-rows", "late-pivots"]))
+        kind = draw(st.sampled_from(["uniform", "lowrank", "fullcol", "sparse", "stabilizer-like", "duplicates+zero-rows", "late-pivots",
+                                     "wide-runs-of-ones", "wide-dense"]))
         dtype = draw(st.sampled_from(DTYPES))
         if kind == "uniform":
             m = draw(st.integers(1, 40)); n = draw(st.integers(1, 28))
@@ -305,6 +306,25 @@ def strategy():
             rows = [0] * m
             for _ in range(draw(st.integers(0, 6))):
                 rows[draw(st.integers(0, m - 1))] |= 1 << draw(st.integers(0, n - 1))
+        elif kind == "wide-runs-of-ones":
+            # wide matrices (up to 96 columns) whose rows are long runs of ones: all-ones, staircase, banded, plus a few random bits
+            n = draw(st.integers(30, 96)); m = draw(st.integers(1, 10))
+            rows = []
+            for i in range(m):
+                lo = draw(st.integers(0, n - 1)); hi = draw(st.integers(lo, n - 1))
+                v = ((1 << (hi + 1)) - 1) & ~((1 << lo) - 1)
+                for _ in range(draw(st.integers(0, 2))):
+                    v ^= 1 << draw(st.integers(0, n - 1))
+                rows.append(v)
+        elif kind == "wide-dense":
+            n = draw(st.integers(29, 96)); m = draw(st.integers(1, 12))
+            dens = draw(st.sampled_from([2, 4, 16]))      # probability of a ZERO is 1/dens
+            rows = []
+            for _ in range(m):
+                v = (1 << n) - 1
+                for _k in range(n // dens + draw(st.integers(0, 3))):
+                    v &= ~(1 << draw(st.integers(0, n - 1)))
+                rows.append(v)
         elif kind == "duplicates+zero-rows":
             n = draw(st.integers(1, 28)); k = draw(st.integers(1, 6))
             pool = [draw(st.integers(0, (1 << n) - 1)) for _ in range(k)] + [0]
